@@ -825,7 +825,7 @@ def wrap(v, w, signed):
 
 # ---- explorer --------------------------------------------------------------------------------------
 class PathResult:
-    __slots__ = ("decisions", "obligations", "exc", "result", "assumptions", "solver_s", "ghost", "aborted")
+    __slots__ = ("decisions", "obligations", "exc", "result", "assumptions", "solver_s", "ghost", "aborted", "feasible_end")
 
 
 def explore(body, max_paths=20000, timeout_ms=20000, backend="int"):
@@ -844,8 +844,11 @@ def explore(body, max_paths=20000, timeout_ms=20000, backend="int"):
         pr.exc = None
         pr.result = None
         pr.aborted = False
+        pr.feasible_end = True
         try:
             pr.result = body(c)
+            # vacuity guard: the path condition (all assumed preconditions included) must still be satisfiable at the end
+            pr.feasible_end = (not c.pc) or c._check() == z3.sat
         except PathAbort:
             pr.aborted = True
         finally:
